@@ -683,6 +683,13 @@ func (n *node) replayLog(shardID uint64, replicaID uint64) (bool, error) {
 	}
 	hasRaftState := !pb.IsEmptyState(rs.State)
 	if hasRaftState {
+		// committed entries can be handed to the apply worker before the update
+		// that carries the new commit value is saved (FastApply), a snapshot
+		// record covering them can thus become durable before that raft state.
+		// a snapshot only ever covers committed entries.
+		if rs.State.Commit < ss.Index {
+			rs.State.Commit = ss.Index
+		}
 		plog.Infof("%s logdb first entry %d size %d commit %d term %d",
 			n.id(), rs.FirstIndex, rs.EntryCount, rs.State.Commit, rs.State.Term)
 		n.logReader.SetState(rs.State)
